@@ -57,7 +57,6 @@ structure ECfg where
   existsExc : List String
   excParents : List (String × List String)     -- class ↦ its MRO names
   booleanAttrs : List Str
-  strict : Bool
   src : Str                                    -- the (newline-normalised) template source, for token locations
 
 inductive XRes (α : Type)
